@@ -5,6 +5,7 @@ package props
 
 import (
 	"fmt"
+	"os"
 	"sync"
 	"testing"
 	"time"
@@ -82,7 +83,60 @@ func newC20World(nsets int) *c20World {
 	return w
 }
 
-func (w *c20World) logf(format string, a ...any) { w.log = append(w.log, fmt.Sprintf(format, a...)) }
+func (w *c20World) logf(format string, a ...any) {
+	w.log = append(w.log, fmt.Sprintf(format, a...))
+	c20Live.mu.Lock()
+	c20Live.log = append(c20Live.log[:0:0], w.log...)
+	c20Live.beat++
+	c20Live.pending = ""
+	c20Live.mu.Unlock()
+}
+
+func c20Begin(format string, a ...any) {
+	c20Live.mu.Lock()
+	c20Live.pending = fmt.Sprintf(format, a...)
+	c20Live.mu.Unlock()
+}
+
+// c20Live: what the stall monitor sees. An operation on the cache takes micro- to milliseconds;
+// if no operation of the running history completes for c20StallBound the set is deadlocked
+// (e.g. a mutex left locked on an error path) - "coherent under concurrency" includes coming back.
+var c20Live struct {
+	mu      sync.Mutex
+	pending string
+	log     []string
+	beat    int64
+	active  bool
+}
+
+const c20StallBound = 120 * time.Second
+
+func c20StallMonitor() {
+	var last int64 = -1
+	since := time.Now()
+	for {
+		time.Sleep(2 * time.Second)
+		c20Live.mu.Lock()
+		beat, active := c20Live.beat, c20Live.active
+		log := append([]string(nil), c20Live.log...)
+		if c20Live.pending != "" {
+			log = append(log, "NEVER RETURNED: "+c20Live.pending)
+		}
+		c20Live.mu.Unlock()
+		if !active || beat != last {
+			last, since = beat, time.Now()
+			continue
+		}
+		if time.Since(since) > c20StallBound {
+			msg := fmt.Sprintf("no cache operation returned for %s: the set is deadlocked after this history (the operation that followed never came back)", c20StallBound)
+			p := writeReplay(c20Spec, &c20Dummy{History: log}, msg)
+			fmt.Printf("VERIF-VIOLATION property=C20 spec=C20.cache replay=%s msg=%q\n", p, msg)
+			os.Exit(1)
+		}
+	}
+}
+
+var c20MonitorOnce sync.Once
 
 // loadable: will FromFile(name) succeed in set s right now?
 func (w *c20World) loadable(si int, name string) bool {
@@ -111,6 +165,7 @@ func (w *c20World) checkRender(s *c20Set, name string, tpl *pongo2.Template, gen
 func (w *c20World) fromCache(si int, name, alias string) error {
 	s := w.sets[si]
 	before := s.ld.hitCount(name)
+	c20Begin("set%d.FromCache(%q)", si, alias)
 	tpl, err := s.set.FromCache(alias)
 	fetched := s.ld.hitCount(name) - before
 	w.logf("set%d.FromCache(%q) -> err=%v fetched=%d", si, alias, err != nil, fetched)
@@ -165,6 +220,7 @@ func (w *c20World) fromCache(si int, name, alias string) error {
 
 func (w *c20World) concurrentSame(si int, name string, k int) error {
 	s := w.sets[si]
+	c20Begin("set%d.Concurrent %d x FromCache(%q)", si, k, name)
 	before := s.ld.hitCount(name)
 	res := make([]*pongo2.Template, k)
 	errs := make([]error, k)
@@ -232,6 +288,7 @@ func (w *c20World) concurrentMixed(si int, name string, k int) error {
 	if s.debug || !w.loadable(si, name) {
 		return nil
 	}
+	c20Begin("set%d.ConcurrentMixed %d ops on %q", si, k, name)
 	before := s.ld.hitCount(name)
 	_, wasCached := s.cache[name]
 	res := make([]*pongo2.Template, k)
@@ -343,6 +400,7 @@ func c20Machine(t *rapid.T, report func(msg string, log []string)) {
 				args = append(args, c20Alias(t, n))
 				delete(w.sets[si].cache, n)
 			}
+			c20Begin("set%d.CleanCache(%q)", si, args)
 			w.sets[si].set.CleanCache(args...)
 			w.logf("set%d.CleanCache(%q)", si, args)
 		},
@@ -474,6 +532,15 @@ func TestC20Cache(t *testing.T) {
 			fmt.Printf("VERIF-VIOLATION property=C20 spec=C20.cache replay=%s msg=%q\n", p, firstLine(lastMsg))
 		}
 	})
+	c20MonitorOnce.Do(func() { go c20StallMonitor() })
+	c20Live.mu.Lock()
+	c20Live.active = true
+	c20Live.mu.Unlock()
+	defer func() {
+		c20Live.mu.Lock()
+		c20Live.active = false
+		c20Live.mu.Unlock()
+	}()
 	rapid.Check(t, func(rt *rapid.T) {
 		// rapid re-runs the shrunk history last, so the last report is the minimal one
 		c20Machine(rt, func(msg string, log []string) {
